@@ -19,14 +19,15 @@ META = {
             'inside each frame and a seeded sample; thorough: every offset), with the client->server stream cut likewise, and with each reply frame withheld in turn. Required: every yielded '
             'result equals the fault-free result of its own operation; the number of results never exceeds the operations covered by completely delivered reply frames; and if no exception is '
             'raised the number of results equals the number of operations. The proxy (used inside its context manager, as documented) must discard its gateway after a fault and return '
-            'correct data on its next use.',
-    'note': 'Client timeouts are 0.4 s so that withheld frames terminate quickly; timing only bounds the wait, verdicts are on results and exceptions. poll.run back-off is not covered.',
+            'correct data on its next use. Finally poll.run (virtual clock) is driven across 1..3 consecutive faulty connections followed by sound ones: every poll that completes must deliver '
+            'exactly the expected (parameter, value) list, every failure must leave the proxy without gateway, and no poll may fail on a connection without injected fault.',
+    'note': 'Client timeouts are 0.4 s so that withheld frames terminate quickly; timing only bounds the wait, verdicts are on results and exceptions. poll.run is driven with a virtual clock; its back-off delays are not judged (the property does not state them).',
 }
 LEVEL = META['level']
 RULE = ('a case = one faulted exchange (setting, fault kind, offset/frame) judged; distinct by that tuple; non-trivial = the fault falls after the Register reply, i.e. while operations are outstanding')
 ASSUMPTIONS = ['values are unique per element, so a result belonging to another request differs from the expected one', 'proxy is used as `with via: list(via.read(...))`, the documented way to have the gateway discarded on errors']
 REQUIRED = ['exchanges:fault-free', 'faults:s2c-cut', 'faults:c2s-cut', 'faults:reply-withheld', 'cut:on-frame-boundary', 'cut:inside-frame', 'setting:synchronous', 'setting:pipelined',
-            'setting:bundled', 'outcome:exception', 'outcome:complete', 'monitor:pairing', 'monitor:delivered-frames-bound', 'monitor:silent-short', 'proxy:faults', 'proxy:recovered']
+            'setting:bundled', 'outcome:exception', 'outcome:complete', 'monitor:pairing', 'monitor:delivered-frames-bound', 'monitor:silent-short', 'proxy:faults', 'proxy:recovered', 'poll:failures', 'poll:recovered']
 TIMEOUT = {'quick': 300, 'thorough': 2400}
 SOFT = {'quick': 40, 'thorough': 900}
 
@@ -220,6 +221,107 @@ def proxy_part(ctx, sim, rng, rounds):
         relay.close()
 
 
+def poll_part(ctx, sim, rng, rounds):
+    """poll.run (the polling loop applications use) across a sequence of faulty connections followed by a sound one.  The loop's
+    clock and sleep are virtual (module attributes of poll replaced), so back-off costs no wall time and decides nothing."""
+    import types
+    from vlib import relay as relaymod
+    from cpppo.server.enip import get_attribute, poll as pollmod
+
+    class VClock:
+        now = 1000.0
+
+        def timer(self):
+            return self.now
+
+        def sleep(self, d):
+            self.now += max(d, 0.0) + 1e-6
+
+    for r in range(rounds):
+        if ctx.expired():
+            break
+        relay = relaymod.Relay(sim.address)
+        vc = VClock()
+        saved = (pollmod.timer, pollmod.time, pollmod.loop)
+        real_loop = pollmod.loop
+        idxs = rng.sample(range(40), rng.choice([2, 4, 7]))
+        params = ['F[%d]' % i for i in idxs]
+        want = [(p_, [value_of(i)]) for p_, i in zip(params, idxs)]
+        nplans = rng.choice([1, 2, 3])
+        plans = []
+        for _ in range(nplans):
+            kind = rng.choice(['s2c_cut', 's2c_cut', 's2c_cut', 'c2s_cut', 's2c_drop'])
+            plans.append({kind: rng.randrange(0, 700) if kind == 's2c_cut' else rng.randrange(0, 500) if kind == 'c2s_cut' else rng.choice([1, 2, 3])})
+            relay.plan(**plans[-1])
+        log = []                                # ('ok', results) | ('fail', repr, gateway_is_none, connections so far)
+        wit = {'poll': True, 'params': params, 'fault_plans': plans}
+        via = get_attribute.proxy(host=relay.address[0], port=relay.address[1], timeout=0.4, depth=rng.choice([1, 2, 4]), identity_default='verif')
+
+        def loop(via_, **kw):
+            out = real_loop(via_, **kw)
+            log.append(('ok', list(out[2]), None, len(relay.records)))
+            return out
+
+        def failure(exc):
+            log.append(('fail', repr(exc)[:120], via.gateway is None, len(relay.records)))
+
+        def process(p_, v):
+            pass
+        process.done = False
+
+        def stopper(*a):
+            # stop once the faulty connections are used up and two polls succeeded after the last failure, or after 40 attempts
+            tail_ok = 0
+            for e in reversed(log):
+                if e[0] != 'ok':
+                    break
+                tail_ok += 1
+            if (not relay.plans and tail_ok >= 2 and len(relay.records) > nplans) or len(log) >= 40:
+                process.done = True
+        try:
+            pollmod.timer = vc.timer
+            pollmod.time = types.SimpleNamespace(sleep=lambda d: (vc.sleep(d), stopper()), time=vc.timer)
+            pollmod.loop = loop
+            pollmod.run(via, process=process, failure=lambda e: (failure(e), stopper()), cycle=1.0, backoff_min=0.5, backoff_max=4.0, latency=0.25, params=params, pass_thru=True)
+        except Exception as exc:
+            ctx.violation('poll-run-raises', 'poll.run ended with %r under fault plans %r' % (exc, plans), wit)
+            continue
+        finally:
+            pollmod.timer, pollmod.time, pollmod.loop = saved
+            try:
+                via.close_gateway()
+            except Exception:
+                pass
+            relay.close()
+        wit['log'] = [(e[0], repr(e[1])[:100], e[2], e[3]) for e in log]
+        ctx.count('poll:runs')
+        fails = [e for e in log if e[0] == 'fail']
+        oks = [e for e in log if e[0] == 'ok']
+        ctx.count('poll:failures', len(fails))
+        ctx.count('poll:successful-polls', len(oks))
+        ctx.case(('poll', tuple(params), repr(plans)), nontrivial=bool(fails))
+        bad = [e for e in oks if e[1] != want]
+        if bad:
+            ctx.violation('poll-delivers-wrong-or-short-results', 'a poll completed without error with %r, expected %r (fault plans %r)' % (bad[0][1], want, plans), wit)
+            continue
+        if any(e[2] is False for e in fails):
+            ctx.violation('proxy-keeps-broken-gateway', 'poll.run reported a failure but the proxy still holds its gateway (fault plans %r)' % (plans,), wit)
+            continue
+        # recovery: once a connection without a planned fault is in use, polls succeed
+        after = [e for e in log if e[3] > nplans]
+        if len(log) >= 40 and not (after and after[-1][0] == 'ok'):
+            ctx.violation('proxy-does-not-recover', '40 attempts, faults on the first %d connections only, last entries %r' % (nplans, [e[:2] for e in log[-3:]]), wit)
+            continue
+        if any(e[0] == 'fail' for e in after[1:]):
+            # (the first entry on the sound connection may still be the failure that made the proxy reconnect)
+            ctx.violation('proxy-does-not-recover', 'a poll failed on a connection without injected fault: %r' % ([e[:2] for e in after[:4]],), wit)
+            continue
+        if fails and oks:
+            ctx.count('poll:recovered')
+        if ctx.want_sample() and fails:
+            ctx.sample({'poll_params': params, 'fault_plans': plans, 'sequence': [e[0] for e in log], 'connections': len(relay.records), 'virtual_seconds': round(vc.now - 1000.0, 2)})
+
+
 def run(ctx):
     from vlib import simdrv, reqgen
     rng = ctx.rng
@@ -236,6 +338,7 @@ def run(ctx):
                 break
             run_setting(ctx, sim, rng, d, m, quick)
         proxy_part(ctx, sim, rng, 6 if quick else 200)
+        poll_part(ctx, sim, rng, 5 if quick else 150)
     finally:
         sim.stop()
 
